@@ -56,6 +56,16 @@ CLAIMED = {
          "The reader/writer pair is proved to round-trip every table whose fields contain no comma, newline or carriage return (the unrestricted statement is false: two known findings with Lean witnesses). Concurrent reads: for every interleaving of the modelled writer and reader (including lock time-outs) a completed read returns a complete table; the modelled programs are checked against the operation order recorded from the real code on every run. Row completeness/consistency is monitored against the scripted scheduler's ledger after every poll.",
          "Trusted: Lean kernel; standard axioms; filelock/OS mutual exclusion and atomicity of a single write (runtime behaviour, sampled by the thorough-tier multi-process stress run); text-mode newline translation modelled; timestamps columns compared as written.",
          "DESIGN.md §6 C12"),
+ "C18": ("other",
+         "model-as-oracle differential through the real hand-off path: store_study/store_batch in one interpreter, load_study/load_batch + stage in another (different hash seeds), compared with each other and with Model/Expand; ExecutionGraph.pickle/unpickle after every poll compared with the live state and the parsed status.csv",
+         "Serialisation fidelity (dill, yaml) is a library/runtime property that a Lean theorem cannot carry; the check therefore decides the property by differential runs with the proved expansion model as the expected value. Lean proves only that staging is a function of the study's content.",
+         "Trusted: dill/pickle/yaml (checked on every generated study, not proved); the harness; process isolation of the two interpreters.",
+         "DESIGN.md §6 C18"),
+ "C19": ("proof",
+         "Lean 4 theorems on the local-execution path of Model/Exec.lean (one execution per attempt up to the first exit 0, at most `attempts`; success completes at once; exhausted attempts fail the whole sub-tree; order from C01; exit code = verdict value) + real `maestro run -fg` runs whose marker logs, status.csv, exit code and captured stdout/stderr are compared with the model's prediction and monitored",
+         "Run count, exit-code decision and sub-tree failure are theorems for every attempts value and every exit-code stream; real processes, working directories, pids and captured output are runtime behaviour sampled by end-to-end CLI runs (quick 20, thorough 400 studies) in which every observed execution sequence must equal the model's.",
+         "Trusted: Lean kernel; standard axioms; /bin/bash, the OS process model and the file system (sampled); the launcher stubs only time.sleep.",
+         "DESIGN.md §6 C19"),
  "C14": ("proof",
          "Lean 4 theorems over Model/Dag.lean (acyclicity invariant, DFS cycle-detection soundness/completeness, toposort, BFS/DFS exactness, fuel sufficiency) + operation-sequence correspondence with the real DAG class + property monitor",
          "Machine-checked theorems for all operation sequences and all graphs over a hand-written model of dag.py; the model is tied to the code on every run by a differential run (random + bounded-exhaustive operation sequences, state compared after every operation) and the property is also monitored directly on the real graph.",
